@@ -1,5 +1,6 @@
 import GoframeModel.Ops.Agg
 import GoframeModel.Spec.Agg
+import GoframeModel.Lemmas.Agg
 /-
   C16 — aggregations and element-wise Add equal the arithmetic reference (exact arithmetic; IEEE
   rounding is outside the model).
@@ -13,7 +14,7 @@ theorem series_agg_spec (ω : Oracle) (k : AggKind) (d : List Cell) :
     (match Spec.aggSpec ω k d with
      | some v => seriesAgg ω k d = .ok v
      | none => (seriesAgg ω k d).isErr = true) := by
-  sorry
+  exact AggLemmas.series_agg_spec ω k d
 
 /-- the pinned Min (no NaN test) returns NaN for {NaN, 2, 1} while Max gives 2: finding D12 -/
 theorem min_pinned_nan :
@@ -23,29 +24,29 @@ theorem min_pinned_nan :
 
 /-- on finite values the sum is the exact rational sum -/
 theorem sum_finite (qs : List Rat) : FVal.sum (qs.map .fin) = .fin (qs.foldl (· + ·) 0) := by
-  sorry
+  exact AggLemmas.sum_finite qs
 
 /-- order independence on finite values: Sum, Min and Max do not depend on the order of the cells -/
 theorem sum_perm (qs rs : List Rat) (h : qs.Perm rs) : FVal.sum (qs.map .fin) = FVal.sum (rs.map .fin) := by
-  sorry
+  exact AggLemmas.sum_perm qs rs h
 
 theorem min_max_perm (xs ys : List Rat) (h : xs.Perm ys) :
     Spec.leastNonNaN (xs.map .fin) = Spec.leastNonNaN (ys.map .fin) ∧
     Spec.greatestNonNaN (xs.map .fin) = Spec.greatestNonNaN (ys.map .fin) := by
-  sorry
+  exact AggLemmas.min_max_perm xs ys h
 
 /-- Min ≤ every value ≤ Max, and both are attained (finite values) -/
 theorem min_max_bounds (x : Rat) (xs : List Rat) :
     ∃ lo hi, Spec.leastNonNaN ((x :: xs).map .fin) = .fin lo ∧ Spec.greatestNonNaN ((x :: xs).map .fin) = .fin hi ∧
       lo ∈ x :: xs ∧ hi ∈ x :: xs ∧ ∀ y ∈ x :: xs, lo ≤ y ∧ y ≤ hi := by
-  sorry
+  exact AggLemmas.min_max_bounds x xs
 
 /-- frame level = per column; any failing column fails the call -/
 theorem frame_agg_spec (ω : Oracle) (k : AggKind) (f : Frame) :
     (match Spec.aggAllSpec ω k f with
      | some kvs => aggAll ω k f = .ok kvs
      | none => (aggAll ω k f).isErr = true) := by
-  sorry
+  exact AggLemmas.frame_agg_spec ω k f
 
 /-- Describe agrees with Series Mean/Min/Max and the cell count on an all-numeric column
 (its count/mean/min/max rows, in that order) -/
@@ -55,22 +56,22 @@ theorem describe_agrees (ω : Oracle) {f : Frame} (hs : f.Sorted) (k : Str) (c :
     (f.describe ω).get? k = some { name := k, data :=
       [.flt false (.fin (xs.length : Rat)), .flt false ((FVal.sum xs).divNat xs.length),
        .flt false (Spec.leastNonNaN xs), .flt false (Spec.greatestNonNaN xs)] } := by
-  sorry
+  exact AggLemmas.describe_agrees ω hs k c hk hstat hne xs hall hsame
 
 /-- Add: cell-wise numeric sum, nil where an operand is non-numeric text, the fill value for rows present
 in only one operand -/
 theorem add_cell_spec (ω : Oracle) (a b : Cell) (e : Cell) (h : Spec.addCellSpec ω a b = some e) :
     addCell ω a b = .ok e := by
-  sorry
+  exact AggLemmas.add_cell_spec ω a b e h
 
 theorem add_col_lengths (ω : Oracle) (fill : Cell) (a b out : List Cell) (h : addCol ω fill a b = .ok out) :
     out.length = max a.length b.length ∧
     ∀ i, min a.length b.length ≤ i → i < out.length → out.getD i .nil = fill := by
-  sorry
+  exact AggLemmas.add_col_lengths ω fill a b out h
 
 /-- frames whose column names differ are an error (after the D16 repair), never a panic -/
 theorem add_name_mismatch (ω : Oracle) (f other : Frame) (fill : Cell)
     (h : ∃ kc ∈ f, other.has kc.1 = false) : (f.add ω other fill).isErr = true := by
-  sorry
+  exact AggLemmas.add_name_mismatch ω f other fill h
 
 end Goframe.C16
